@@ -1102,7 +1102,7 @@ pub fn run_history(ch: &mut dyn Chooser, cfg: &Cfg, rep: &mut Report, want: &str
     let mut prelude_stage = 0usize;
     let leaf = |name: &str, props: Vec<(String, MV)>| NewNode { class: "ObjectValue".into(), name: name.into(), shadowed_uid: None, props, children: vec![], self_ref_prop: false, other_thread: false, ctor: 0 };
     // initial forest through inserts (part of the history)
-    let total_steps = cfg.init_nodes + cfg.steps + if cfg.scenario != 0 { 4 } else { 0 };
+    let total_steps = cfg.init_nodes + cfg.steps + if cfg.scenario != 0 { 6 } else { 0 };
     for step in 0..total_steps {
         let scripted: Option<Op> = match (cfg.scenario, prelude_stage) {
             (1, 0) => {
@@ -1117,6 +1117,14 @@ pub fn run_history(ch: &mut dyn Chooser, cfg: &Cfg, rep: &mut Report, want: &str
                 let kids = targets.iter().enumerate().map(|(i, t)| leaf(&format!("a{}", i), vec![("Value".to_owned(), MV::Ref(MRef::Node(*t)))])).collect();
                 Some(Op::Insert { dom: 0, parent: w.m.roots[0], sub: NewNode { class: "Folder".into(), name: "A".into(), shadowed_uid: None, props: vec![], children: kids, self_ref_prop: false, other_thread: false, ctor: 0 } })
             }
+            // clone the folder whose children all point outside it (65-130 distinct outward Refs in ONE clone call),
+            // within the DOM and, after the targets were moved to the other DOM, into that DOM
+            (1, 2) => w.m.nodes.iter().rev().find(|(_, n)| n.name == "A" && n.children.len() >= 65).map(|(i, _)| Op::CloneWithin { x: *i }),
+            (1, 3) if cfg.ndoms >= 2 => {
+                let b = w.m.nodes.iter().rev().find(|(_, n)| n.name == "B" && n.children.len() >= 65 && n.dom == 0).map(|(i, _)| *i);
+                b.map(|b| Op::Transfer { x: b, dest: 1, np: w.m.roots[1] })
+            }
+            (1, 4) if cfg.ndoms >= 2 => w.m.nodes.iter().find(|(_, n)| n.name == "A" && n.children.len() >= 65 && n.dom == 0 && n.parent.is_some()).map(|(i, _)| Op::CloneInto { x: *i, dest: 1 }),
             (2, 0) => {
                 let kids = (0..460).map(|i| leaf(&format!("m{}", i), vec![("UniqueId".to_owned(), MV::Uid(uid_of(i % 4)))])).collect();
                 Some(Op::Insert { dom: 0, parent: w.m.roots[0], sub: NewNode { class: "Folder".into(), name: "M".into(), shadowed_uid: None, props: vec![], children: kids, self_ref_prop: false, other_thread: false, ctor: 0 } })
@@ -1131,7 +1139,7 @@ pub fn run_history(ch: &mut dyn Chooser, cfg: &Cfg, rep: &mut Report, want: &str
             }
             _ => None,
         };
-        if scripted.is_some() {
+        if scripted.is_some() || (cfg.scenario != 0 && prelude_stage < 6) {
             prelude_stage += 1;
         }
         let op = if scripted.is_some() {
